@@ -795,14 +795,13 @@ def programs_stage(run, work):
         for k in range(per):
             if not wasm and k % 6 == 5:
                 scens.append(ResScenario(rng, k)); continue
-            if wasm and k >= 4: break           # small wasm programs: the JS runtime never frees or grows memory
-            t = gen_ptype(rng, rng.choice([0, 1, 1]) if wasm else rng.choice([0, 1, 1, 2]), wasm)
+            t = gen_ptype(rng, rng.choice([0, 1, 1, 2] if quick else [0, 1, 1, 2, 2, 3]), wasm)
             r = rng.random()
             if r < 0.35: t = ("s", [("p", rng.choice(["i32", "i64"]))] + t[1][1:])       # scalar first field usable as a loop counter
             elif r < 0.45: t = ("s", [("p", "str")] + t[1][1:])
             elif r < 0.55 and not wasm: t = ("s", [("o", ("p", rng.choice(["i8", "i32", "i64", "u16"])))] + t[1][1:])
             if rng.random() < 0.2: t = ("a", rng.choice([1, 2, 3]), t)                    # the variable is a fixed array of structs
-            scens.append(Scenario(rng, k, t, rng.choice([3, 4, 6]) if wasm else rng.choice([4, 6, 9]), feat))
+            scens.append(Scenario(rng, k, t, rng.choice([4, 6, 9]), feat))
         fails += run_scenarios(run, work, "p%d" % pi, scens, "wasm" if wasm else "native", byval, depth=0)
     for f in fails[:3]:
         shrink_ops(work, f, byval)
@@ -856,13 +855,6 @@ def run_scenarios(run, work, name, scens, target, byval, depth):
             run.extra.setdefault("rejected_samples", [])
             if len(run.extra["rejected_samples"]) < 3: run.extra["rejected_samples"].append({"type": tstr(sc.t if hasattr(sc, "t") and isinstance(sc.t, tuple) else sc.t0), "error": err[-300:]})
             return []
-        got1 = split_out(r.get("out", "")).get(sc.k, [])
-        if target == "wasm" and "outside the bounds of the DataView" in r.get("err", "") and got1 == exps[0][:len(got1)] and len(got1) > 50:
-            # runtime/wasm/runtime.js: ferret_alloc is a bump allocator over a memory that is never grown or freed (every
-            # alloca and every Println allocates); a long program runs out of memory. Everything printed so far was right:
-            # resource exhaustion of the JS runtime, not a layout violation (kept rare by small wasm programs).
-            run.count("wasm_memory_exhausted")
-            return []
         return [dict(kind="crash", sc=sc, target=target, src=src, detail="exit status %s, stderr %s" % (r.get("rc"), r.get("err", "")[-300:]))]
     got = split_out(r["out"])
     for sc, exp in zip(scens, exps):
@@ -904,7 +896,6 @@ def main(run):
     # ---- union size model (open finding F-UNION-SIZE): reproduced on every run by its own probe
     uf = [f for f in check_types(run, hook, [UNION_PROBE], prims, "union") if f["kind"] == "oracle"]
     run.extra.setdefault("gates", []).append("array elements of optional type and struct-payload results are not generated at program level (the compiler rejects them)")
-    run.extra["gates"] += ["wasm programs are kept small: runtime/wasm/runtime.js never grows or frees memory, a long program dies with `Offset is outside the bounds of the DataView` (counted as wasm_memory_exhausted when everything printed before was right)"]
     run.extra["gates"] += ["union types are kept out of the random type generator while F-UNION-SIZE is open (probe: %s)" % tstr(UNION_PROBE)]
     for f in uf[:1]:
         report_layout_failure(run, f)
